@@ -290,6 +290,46 @@ def delivering (s : Stream) : Bool :=
   s.isLinked && s.backConsumed && s.pending && (s.phase == .terminated || s.phase == .error)
 
 
+
+/-! ### the routing decision in front of a backend connection -/
+
+/-- what `Router::connect` / `route_from_request` look at, in the order they look at it -/
+structure RouteIn where
+  /-- HTTPS with strict SNI binding: the authority is not covered by the served certificate -/
+  sniMismatch : Bool := false
+  /-- the authority does not parse as host[:port] -/
+  hostMalformed : Bool := false
+  /-- a frontend matches (host, path, method) -/
+  frontFound : Bool := true
+  /-- frontend policy Permanent / Found / PermanentRedirect: the stashed 301 / 302 / 308 -/
+  redirect : Option Nat := none
+  /-- frontend policy Unauthorized -/
+  unauthorizedPolicy : Bool := false
+  hasCluster : Bool := true
+  /-- frontend `required_auth` and the result of `check_basic` -/
+  requiredAuth : Bool := false
+  authOk : Bool := false
+  /-- `cluster.https_redirect` on a plain HTTP listener -/
+  legacyHttpsRedirect : Bool := false
+  /-- `cluster_ip_at_limit` for (cluster, source IP, this frontend connection) -/
+  atIpLimit : Bool := false
+  deriving DecidableEq, Repr, Inhabited
+
+/-- the cause of the proxy answer, or `none`: go on to pick a backend
+    (`router.rs::route_from_request` then `Router::connect`, in source order) -/
+def routeDecision (r : RouteIn) : Option Cause :=
+  if r.sniMismatch then some .sniMismatch
+  else if r.hostMalformed then some .hostParse
+  else if !r.frontFound then some .noCluster
+  else match r.redirect with
+    | some n => some (.redirect (some n))
+    | none =>
+      if r.unauthorizedPolicy || !r.hasCluster then some .unauthorized
+      else if r.requiredAuth && !r.authOk then some .unauthorized
+      else if r.legacyHttpsRedirect then some (.redirect none)
+      else if r.atIpLimit then some .perIpLimit
+      else none
+
 /-! ### pooling of the HTTP/1 backend connection -/
 
 /-- `h1.rs::end_stream`, client position, `BackendStatus::Connected` arm, evaluated on the
